@@ -10,6 +10,7 @@ import (
 	"encoding/json"
 	"fmt"
 
+	corev1 "k8s.io/api/core/v1"
 	"k8s.io/apimachinery/pkg/apis/meta/v1/unstructured"
 )
 
@@ -222,6 +223,23 @@ func c01RunX(s *c01Scn) (c01Obs, []Mon) {
 	w := xwNewWorld(s.xwScn)
 	obs := c01Obs{}
 	nm := &c01Namer{}
+	if len(s.Conn) > 0 {
+		// connection secrets are typed reads (corev1.Secret): the store's scheme must know the type
+		_ = corev1.AddToScheme(w.St.Scheme())
+		nm.conn = map[string]bool{}
+		for _, n := range s.Conn {
+			nm.conn[n] = true
+		}
+		for _, n := range s.ConnHave {
+			sec := &unstructured.Unstructured{}
+			sec.SetAPIVersion("v1")
+			sec.SetKind("Secret")
+			sec.SetNamespace("secrets")
+			sec.SetName("conn-" + n)
+			_ = unstructured.SetNestedField(sec.Object, "dXNlcg==", "data", "user")
+			w.St.Seed(sec)
+		}
+	}
 	staleReq := s.StaleSel
 	if staleReq == nil {
 		staleReq = s.Stale // replay
@@ -365,16 +383,91 @@ func c01ClsBase(s *xwScn, o c01Obs) string {
 	return fmt.Sprintf("%s/pre=%d/rounds=%d/faults=%d/crashed=%d/err=%d/miss=%d", s.Mode, len(s.Objs), len(s.Rounds), faults, crashed, errs, missed)
 }
 
+// c01GenConn: the monitor-only family for the connection-secret read of ObserveComposedResources.
+// Round 0 creates 2-4 composed resources, some with a connection secret reference; round 1
+// re-emits them (plus/minus one) with a server error on one of the API calls of its observe phase
+// - found by a fault-free probe run: the reads of the secrets included -, then three fault-free
+// rounds. The error class (internal error, timeout, 429, no kind match, ...) is drawn by the XR
+// world from the scenario.
+func c01GenConn(r *Rng) c01Scn {
+	s := c01Scn{Direct: true}
+	s.Mode, s.Fin, s.Refs, s.Objs = "fn", r.Bool(), []xwRef{}, []xwObj{}
+	ds := []xwDesired{}
+	for _, n := range c01RNames {
+		if r.Chance(3, 5) {
+			ds = append(ds, xwDesired{RName: n, Kind: c01KindOf[n], Content: r.Intn(3), Ready: r.Bool()})
+		}
+	}
+	if len(ds) == 0 {
+		ds = append(ds, xwDesired{RName: "a", Kind: "KA", Content: 1, Ready: true})
+	}
+	for _, d := range ds {
+		if r.Chance(2, 3) {
+			s.Conn = append(s.Conn, d.RName)
+			if r.Bool() {
+				s.ConnHave = append(s.ConnHave, d.RName)
+			}
+		}
+	}
+	if len(s.Conn) == 0 {
+		s.Conn = []string{ds[0].RName}
+	}
+	d1 := append([]xwDesired{}, ds...)
+	if len(d1) > 1 && r.Chance(1, 3) {
+		d1 = d1[:len(d1)-1]
+	}
+	s.Rounds = []xwRound{{Desired: ds}, {Desired: d1}, {Desired: d1}, {Desired: d1}, {Desired: d1}}
+	return s
+}
+
+// c01EmitConn runs the family: a fault-free probe tells how many calls the observe phase of
+// round 1 issues (everything before the first write); the fault is aimed at one of them.
+func c01EmitConn(c *Ctx, s c01Scn) {
+	probe := s
+	probe.Rounds = append([]xwRound{}, s.Rounds...)
+	o, _ := c01RunX(&probe)
+	reads := 0
+	for _, call := range o.Rounds[1].Calls {
+		if len(call) < 4 || call[:4] != "get " {
+			break
+		}
+		reads++
+	}
+	if reads > 1 {
+		s.Rounds = append([]xwRound{}, s.Rounds...)
+		s.Rounds[1].Fault = &xwFault{K: 1 + c.Rng.Intn(reads-1), O: Pick(c.Rng, []string{"fail", "fail", "fail", "crashBefore"})}
+	}
+	obs, mons := c01RunX(&s)
+	sec := 0
+	for _, rd := range obs.Rounds {
+		for _, call := range rd.Calls {
+			if len(call) > 11 && call[:11] == "get Secret/" {
+				sec++
+			}
+		}
+	}
+	cls := fmt.Sprintf("direct-conn/desired=%d/conn=%d/have=%d/secretReads=%d/%s", len(s.Rounds[0].Desired), len(s.Conn), len(s.ConnHave), min(sec, 9), obs.Rounds[1].Result)
+	c.Emit(s, struct{}{}, mons, cls)
+}
+
 func init() {
 	Register("C01", func(c *Ctx) {
 		for _, raw := range c.Corpus {
 			var s c01Scn
 			if err := json.Unmarshal(raw, &s); err == nil && len(s.Rounds) > 0 {
 				obs, mons := c01RunX(&s)
+				if s.Direct {
+					c.Emit(s, struct{}{}, mons, "corpus")
+					continue
+				}
 				c.Emit(s, obs, mons, "corpus")
 			}
 		}
 		for i := 0; i < c.N; i++ {
+			if i%8 == 7 {
+				c01EmitConn(c, c01GenConn(c.Rng))
+				continue
+			}
 			s := c01GenX(c.Rng)
 			if c.Tier == "thorough" && i%4 == 0 {
 				// exhaustive single-fault sweep of the first round: every call index x outcome
